@@ -252,6 +252,16 @@ def fam_stempairs(r, n):
         tries += 1
     return norm(out)
 
+def fam_wordpairs(r, n, wps=10, v=700):
+    # strings of `wps` random two-byte "words" out of `v` (first byte 0x02..0x7F, second 0x80..0xFE): Re-Pair first turns the words into
+    # rules and meanwhile (byte,word), (word,byte), (word,word) pairs pile up - far more distinct pairs alive at once than byte text has
+    allw = [bytes([a, b]) for a in range(0x02, 0x80) for b in range(0x80, 0xFF)]
+    words = r.sample(allw, v)
+    out = set()
+    while len(out) < n:
+        out.add(b"".join(r.choice(words) for _ in range(wps)))
+    return norm(out)
+
 def fam_longcode(r, n):
     # ~160 KB of text over 10 letters whose frequencies double, plus a few bytes that occur once: together with the weight-1 entries the
     # Huffman / Hu-Tucker models give unused bytes, the rare symbols get codewords longer than the 16-bit decoding-table chunk, so
@@ -327,6 +337,7 @@ def corner_corpus():
     add("lcp17000", [b"a", b"x" * 17000, b"x" * 17000 + b"a", b"x" * 17000 + b"ab", b"x" * 17000 + b"b", b"y"])   # three-byte VByte
     add("two_prefix", [b"abc", b"abcd"])
     rr = random.Random(977)
+    add("rare_longest_first", [bytes(rr.choice(b"xyz") for _ in range(rr.randint(3, 12))) for _ in range(300)] + [bytes(range(0x21, 0x49))])  # the longest member opens the first bucket and compresses worst
     add("rare_longest", [bytes(rr.choice(b"abcd") for _ in range(rr.randint(3, 12))) for _ in range(420)] + [bytes(range(0x80, 0xE4))])  # longest string is the worst-compressed one
     add("words7", [b"alpha", b"alpine", b"beta", b"betamax", b"gamma", b"gammb", b"zeta"])
     return C
